@@ -954,6 +954,12 @@ def _check_chain(c, mod, f, ex, ps, heads, ks, kind, direction):
                 want_k.append(gf2.wnot(mode.le_bytes([mode.inbyte(A["k"], 4 * i + b) for b in range(4)], 4)))
             c.ob(mode.words_eq(kw, want_k), "PREFIX", "key-words", "key word i = NOT LE32(k[4i..4i+3]) for all %d words" % nk,
                  "key schedule differs from the specification: %s" % (mode.first_diff(kw, want_k)))
+            if "KEYINJ" in c.rulemap:
+                inj, why_ = injective_in(kw, [mode.inbyte(A["k"], j_) for j_ in range(4 * nk)])
+                if inj is None:
+                    raise Broken("%s: %s: whether the key words are an injective function of the key bytes is not decided" % (f.name, why_))
+                c.ob(inj, "KEYINJ", "key-injective", "the %d key words are an injective function of the %d key bytes: two different keys never run the same cipher" % (nk, 4 * nk),
+                     "the key words do not determine the key: %s - a packet made under one key is accepted under another" % why_)
             # calls
             if kind == "aead" or enc:
                 su = [e for e in ev if e[0] == "SETUP"]
